@@ -40,6 +40,7 @@ type env struct {
 	inject func(m ref.Msg)
 	sent   func() []ref.Msg
 	get    func(ctx context.Context, path string) ([]byte, error)
+	ping   func(ctx context.Context) error
 	closef func()
 
 	mu        sync.Mutex
@@ -51,6 +52,8 @@ type env struct {
 	// nonGets: the connection's own requests (nested ones included) are Non-confirmable on the datagram transport
 	nonGets atomic.Bool
 	peerMID atomic.Uint32
+	// pingFirst: handlers ping the peer before anything else
+	pingFirst atomic.Bool
 }
 
 func newEnv(kind string, queue int) *env {
@@ -65,6 +68,17 @@ func newEnv(kind string, queue int) *env {
 		e.entered = append(e.entered, id)
 		e.runs[id]++
 		e.mu.Unlock()
+		if e.pingFirst.Load() && (strings.HasPrefix(id, "nest:") || strings.HasPrefix(id, "plain")) {
+			// the handler's first blocking operation is a ping of the peer (no nested request has replaced the reader yet)
+			ctx, cancel := context.WithTimeout(context.Background(), 60*time.Second)
+			err := e.ping(ctx)
+			cancel()
+			if err != nil {
+				e.mu.Lock()
+				e.nestErr = append(e.nestErr, fmt.Sprintf("%s: ping from inside the handler: %v", id, err))
+				e.mu.Unlock()
+			}
+		}
 		if strings.HasPrefix(id, "nest:") {
 			// block in a nested request on the same connection
 			ctx, cancel := context.WithTimeout(context.Background(), 60*time.Second)
@@ -130,6 +144,7 @@ func newEnv(kind string, queue int) *env {
 			defer cc.ReleaseMessage(resp)
 			return resp.ReadBody()
 		}
+		e.ping = func(ctx context.Context) error { return cc.Ping(ctx) }
 		e.closef = func() { _ = cc.Close() }
 	case "tcp":
 		sc := sim.NewScriptConn()
@@ -162,6 +177,7 @@ func newEnv(kind string, queue int) *env {
 			defer cc.ReleaseMessage(resp)
 			return resp.ReadBody()
 		}
+		e.ping = func(ctx context.Context) error { return cc.Ping(ctx) }
 		e.closef = func() { _ = cc.Close() }
 	}
 	return e
@@ -208,6 +224,10 @@ func (p *peer) step() bool {
 		progressed = true
 		m := msgs[p.seen]
 		switch {
+		case p.e.kind == "tcp" && m.Code == 7<<5|2: // ping signal from the connection under test
+			p.e.inject(ref.Msg{Code: 7<<5 | 3, Token: m.Token})
+		case p.e.kind == "udp" && m.Type == 0 && m.Code == 0: // empty confirmable = ping, answered with a reset
+			p.e.inject(ref.Msg{Type: 3, Code: 0, MID: m.MID})
 		case m.Code == 1: // GET from the connection under test
 			path := pathOf(m)
 			var k int
@@ -269,15 +289,16 @@ func (p *peer) run(stop chan struct{}) {
 }
 
 type ccase struct {
-	Workload string `json:"workload"`
-	Kind     string `json:"transport"`
-	Queue    int    `json:"queue_size"`
-	N        int    `json:"messages"`
-	Depth    int    `json:"nesting_depth,omitempty"`
-	Dups     int    `json:"duplicates_during_handler,omitempty"`
-	Clients  int    `json:"external_callers,omitempty"`
-	OwnMID   bool   `json:"request_mid_equals_own_mid,omitempty"`
-	NonGets  bool   `json:"own_requests_non_confirmable,omitempty"`
+	Workload  string `json:"workload"`
+	Kind      string `json:"transport"`
+	Queue     int    `json:"queue_size"`
+	N         int    `json:"messages"`
+	Depth     int    `json:"nesting_depth,omitempty"`
+	Dups      int    `json:"duplicates_during_handler,omitempty"`
+	Clients   int    `json:"external_callers,omitempty"`
+	OwnMID    bool   `json:"request_mid_equals_own_mid,omitempty"`
+	NonGets   bool   `json:"own_requests_non_confirmable,omitempty"`
+	PingFirst bool   `json:"handlers_ping_the_peer_first,omitempty"`
 }
 
 // pureServer: handlers return at once, nothing else happens: exactly once, in arrival order.
@@ -341,6 +362,7 @@ func nested(rec *vr.Rec, c ccase, rnd *rand.Rand) {
 	e := newEnv(c.Kind, c.Queue)
 	defer e.closef()
 	e.nonGets.Store(c.NonGets)
+	e.pingFirst.Store(c.PingFirst)
 	if c.OwnMID {
 		e.mid.Store(30000) // the first injected request gets MID 30001 = the connection's first own MID
 	}
@@ -487,7 +509,7 @@ func dupReplies(c ccase) int {
 }
 
 func TestRun(t *testing.T) {
-	rec := vr.New("C11", "workloads on real udp (in-memory session) and tcp (scripted net.Conn) connections with receive-queue sizes 0, 1, 16: pure-server (50..300 uniquely tagged requests plus inline pings/stray ACKs, handlers return at once; exactly-once and arrival order), nested (handler chains blocking in nested GETs to depth 1..4, 0..20 plain requests, 0..4 external callers issuing 5 requests each; with 0..3 duplicates of the waiting handler's own request injected while it waits, and with request MID == the connection's own first MID, and with the connection's own (nested) requests Non-confirmable); reader-loop hook points inject PRNG yields. Distinct = distinct workload tuples.")
+	rec := vr.New("C11", "workloads on real udp (in-memory session) and tcp (scripted net.Conn) connections with receive-queue sizes 0, 1, 16: pure-server (50..300 uniquely tagged requests plus inline pings/stray ACKs, handlers return at once; exactly-once and arrival order), nested (handler chains blocking in nested GETs to depth 1..4, 0..20 plain requests, 0..4 external callers issuing 5 requests each; with 0..3 duplicates of the waiting handler's own request injected while it waits, and with request MID == the connection's own first MID, and with the connection's own (nested) requests Non-confirmable, and with handlers that ping the peer as their first blocking operation); reader-loop hook points inject PRNG yields. Distinct = distinct workload tuples.")
 	defer rec.Flush(true)
 	seed := vr.Seed()
 	var hookHits atomic.Int64
@@ -520,6 +542,9 @@ func TestRun(t *testing.T) {
 			for depth := 1; depth <= 4; depth++ {
 				for rep := 0; rep < vr.Scale(3, 60); rep++ {
 					cases = append(cases, ccase{Workload: "nested", Kind: kind, Queue: q, Depth: depth, N: rnd.Intn(21), Clients: rnd.Intn(5)})
+				}
+				for rep := 0; rep < vr.Scale(2, 30); rep++ {
+					cases = append(cases, ccase{Workload: "nested", Kind: kind, Queue: q, Depth: depth, N: rnd.Intn(8), Clients: rnd.Intn(3), PingFirst: true})
 				}
 				if kind == "udp" {
 					for dups := 1; dups <= 3; dups++ {
